@@ -1013,3 +1013,39 @@ func genCountWrap(r *Rng, kind string) rtcp.Packet {
 	}
 	panic("genCountWrap " + kind)
 }
+
+// genTwccWrapValid: a VALID feedback packet whose packet status count is a few short of 65536 and whose final
+// status-vector chunk announces more symbols than remain. A decoder that advances its 16-bit status counter by
+// the whole chunk wraps around and goes on reading; the receive deltas here are octet pairs 1f ff, which such a
+// decoder takes for run-length chunks, and 16 octets of padding follow, so the packet is accepted but decoded wrongly.
+func genTwccWrapValid(r *Rng) []byte {
+	short := 1 + r.Intn(8)                  // count = 65536 - short
+	last := 1 + r.Intn(minInt(6, 14-short)) // statuses left for the final vector chunk
+	count := 65536 - short
+	nd := 16 // received packets (small deltas), announced by the first chunk
+	body := make([]byte, 16)
+	binary.BigEndian.PutUint32(body[0:], uint32(r.U64()))
+	binary.BigEndian.PutUint32(body[4:], uint32(r.U64()))
+	binary.BigEndian.PutUint16(body[8:], uint16(r.U64()))
+	binary.BigEndian.PutUint16(body[10:], uint16(count))
+	binary.BigEndian.PutUint32(body[12:], uint32(r.U64()))
+	body = binary.BigEndian.AppendUint16(body, 1<<13|uint16(nd))
+	left := count - last - nd
+	for left > 0 {
+		n := minInt(left, 8191)
+		body = binary.BigEndian.AppendUint16(body, uint16(n))
+		left -= n
+	}
+	body = binary.BigEndian.AppendUint16(body, 0x8000) // 1-bit vector, all "not received"
+	for i := 0; i < nd/2; i++ {
+		body = append(body, 0x1f, 0xff)
+	}
+	pad := 16 + (4-(len(body)+4)%4)%4
+	for i := 0; i < pad-1; i++ {
+		body = append(body, 0)
+	}
+	body = append(body, byte(pad))
+	hdr := []byte{0xa0 | 15, 205, 0, 0}
+	binary.BigEndian.PutUint16(hdr[2:], uint16((len(body)+4)/4-1))
+	return append(hdr, body...)
+}
